@@ -75,6 +75,7 @@ class Harness:
         self.replay = "playback"  # or "none:<reason>"
         self.timeout = None
         self.solver = None
+        self.mode = "O"           # "O" overlay crate, "S:<name>" single-module scratch crate under modes/<name>
 
     @property
     def full(self):
@@ -145,6 +146,8 @@ def parse_harness_file(path):
         raise SystemExit(f"{path}: missing // @target or mod __verif_*")
     target = tm.group(1)
     modname = mm.group(1)
+    mode_m = re.search(r"^// @mode\s+(\S+)", text, re.M)
+    file_mode = mode_m.group(1) if mode_m else "O"
     modpath = module_path_of(target)
     module = f"{modpath}::{modname}" if modpath else modname
     harnesses = []
@@ -153,6 +156,7 @@ def parse_harness_file(path):
         h.file = path
         h.target = target
         h.module = module
+        h.mode = file_mode
         for kv in m.group(1).split():
             if "=" in kv:
                 k, v = kv.split("=", 1)
@@ -263,6 +267,101 @@ class Inconclusive(Exception):
     pass
 
 
+class Build:
+    """Where a group of harnesses is compiled: the overlay crate itself (mode O) or a scratch crate that
+    #[path]-includes one real source file of the overlay against environment shims (mode S)."""
+    def __init__(self, mode):
+        self.mode = mode
+        if mode == "O":
+            self.cwd = OVERLAY
+            self.kani_target = KANI_TARGET
+            self.playback_target = PLAYBACK_TARGET
+            self.lib_flag = ["--lib"]
+        else:
+            name = mode.split(":", 1)[1]
+            self.name = name
+            self.cwd = os.path.join(os.path.dirname(OVERLAY), "modeS-" + name)
+            self.kani_target = KANI_TARGET + "-" + name
+            self.playback_target = PLAYBACK_TARGET + "-" + name
+            self.lib_flag = ["--lib"]
+
+    def prepare(self):
+        if self.mode == "O":
+            return
+        src = os.path.join(VERIF, "modes", self.name)
+        if os.path.isdir(self.cwd):
+            for x in os.listdir(self.cwd):
+                if x in ("target",):
+                    continue
+                px = os.path.join(self.cwd, x)
+                if os.path.islink(px) or os.path.isfile(px):
+                    os.unlink(px)
+                else:
+                    shutil.rmtree(px)
+        os.makedirs(self.cwd, exist_ok=True)
+        for x in os.listdir(src):
+            sx = os.path.join(src, x)
+            if os.path.isdir(sx):
+                shutil.copytree(sx, os.path.join(self.cwd, x))
+        shutil.copy(os.path.join(src, "Cargo.toml.in"), os.path.join(self.cwd, "Cargo.toml"))
+        with open(os.path.join(self.cwd, "Cargo.toml"), "a") as f:
+            f.write("\n[features]\ndefault = [\"verif_mode_s\"]\nverif_mode_s = []\n")
+        shutil.copy(os.path.join(OVERLAY, "Cargo.lock"), os.path.join(self.cwd, "Cargo.lock"))
+        gen = getattr(sys.modules[__name__], "gen_mode_" + self.name)
+        gen(self.cwd)
+        tgt = os.path.join(self.cwd, "target")
+        if os.path.islink(tgt):
+            os.unlink(tgt)
+        elif os.path.exists(tgt):
+            shutil.rmtree(tgt)
+        os.makedirs(self.playback_target, exist_ok=True)
+        os.symlink(self.playback_target, tgt)
+
+
+def _extract_item(text, header_re):
+    """verbatim copy of `#[derive..] pub enum/struct X { .. }` from real source text"""
+    m = re.search(header_re, text, re.M)
+    if not m:
+        raise Inconclusive(f"mode S: cannot find {header_re} in the real source")
+    start = m.start()
+    # include preceding attribute / doc lines
+    lines = text[:start].splitlines(keepends=True)
+    i = len(lines)
+    while i > 0 and (lines[i - 1].lstrip().startswith("#[") or lines[i - 1].lstrip().startswith("///")):
+        i -= 1
+    start = sum(len(l) for l in lines[:i])
+    b = text.find("{", m.end() - 1)
+    end = _balanced(text, b, "{", "}")
+    return text[start:end] + "\n"
+
+
+def gen_mode_rgp(cwd):
+    """lib.rs of the row_group_pruning scratch crate: planner enums copied verbatim from the overlay's real
+    sources, a subset `Expr`, and the real row_group_pruning.rs (with appended harness modules) via #[path]."""
+    le = open(os.path.join(OVERLAY, "src/planner/logical_expr.rs")).read()
+    sc = open(os.path.join(OVERLAY, "src/planner/schema.rs")).read()
+    sv = _extract_item(le, r"^pub enum ScalarValue\s*\{")
+    # the recursive List(Vec<ScalarValue>, ..) variant is never met by row_group_pruning.rs; dropping it keeps the
+    # derived Clone/Drop glue of literals non-recursive (measured: it dominated symbolic execution)
+    sv = re.sub(r"(?m)^\s*(///[^\n]*\n\s*)*List\([^\n]*\),\n", "", sv)
+    parts = [
+        sv,
+        _extract_item(le, r"^pub enum BinaryOp\s*\{"),
+        _extract_item(le, r"^pub enum UnaryOp\s*\{"),
+        _extract_item(sc, r"^pub struct Column\s*\{"),
+    ]
+    shim = open(os.path.join(VERIF, "modes", "rgp", "src", "planner_expr_shim.rs")).read()
+    real = os.path.join(OVERLAY, "src/storage/row_group_pruning.rs")
+    lib = ("#![allow(dead_code, unused_imports, unexpected_cfgs)]\n"
+           "pub mod planner {\n    use ordered_float::OrderedFloat;\n    pub type Decimal = i128;\n"
+           "    pub type ArrowDataType = arrow::datatypes::DataType;\n"
+           + "".join(parts) + shim + "}\n"
+           "pub mod storage {\n    #[path = \"" + real + "\"]\n    pub mod row_group_pruning;\n}\n")
+    os.makedirs(os.path.join(cwd, "src"), exist_ok=True)
+    with open(os.path.join(cwd, "src", "lib.rs"), "w") as f:
+        f.write(lib)
+
+
 # --------------------------------------------------------------------------
 # running kani
 # --------------------------------------------------------------------------
@@ -290,21 +389,23 @@ def shquote(s):
     return "'" + s.replace("'", "'\\''") + "'"
 
 
-def kani_verify(harnesses, tier, workdir):
+def kani_verify(harnesses, tier, workdir, build=None):
+    build = build or Build("O")
     per_to, mem = TIER_CAPS[tier]
     per_to = max([per_to] + [h.timeout for h in harnesses if h.timeout])
-    out_json = os.path.join(workdir, "kani.json")
+    tag = "" if build.mode == "O" else "-" + build.name
+    out_json = os.path.join(workdir, f"kani{tag}.json")
     if os.path.exists(out_json):
         os.unlink(out_json)
-    cmd = ["cargo", "kani", "--lib", "-Z", "stubbing", "-Z", "unstable-options",
-           "--target-dir", KANI_TARGET, "--exact", "--output-format", "terse",
+    cmd = ["cargo", "kani"] + build.lib_flag + ["-Z", "stubbing", "-Z", "unstable-options",
+           "--target-dir", build.kani_target, "--exact", "--output-format", "terse",
            "--harness-timeout", f"{per_to}s", "--export-json", out_json,
            "-j", str(max(1, min(JOBS, len(harnesses))))]
     for h in harnesses:
         cmd += ["--harness", h.full]
-    logf = os.path.join(workdir, "kani.log")
+    logf = os.path.join(workdir, f"kani{tag}.log")
     waves = (len(harnesses) + JOBS - 1) // JOBS
-    rc = run_capped(cmd, OVERLAY, mem, 900 + per_to * waves + 120, logf)
+    rc = run_capped(cmd, build.cwd, mem, 900 + per_to * waves + 120, logf)
     return rc, out_json, logf
 
 
@@ -390,14 +491,15 @@ def check_identity(c):
 # --------------------------------------------------------------------------
 
 def gen_playback(h, tier, workdir):
+    build = Build(h.mode)
     per_to, mem = TIER_CAPS[tier]
     if h.timeout:
         per_to = max(per_to, h.timeout)
-    cmd = ["cargo", "kani", "--lib", "-Z", "stubbing", "-Z", "unstable-options", "-Z", "concrete-playback",
-           "--concrete-playback=print", "--target-dir", KANI_TARGET, "--exact", "--harness", h.full,
+    cmd = ["cargo", "kani"] + build.lib_flag + ["-Z", "stubbing", "-Z", "unstable-options", "-Z", "concrete-playback",
+           "--concrete-playback=print", "--target-dir", build.kani_target, "--exact", "--harness", h.full,
            "--harness-timeout", f"{per_to}s"]
     logf = os.path.join(workdir, f"playback-gen-{h.name}.log")
-    run_capped(cmd, OVERLAY, mem, 900 + per_to + 120, logf)
+    run_capped(cmd, build.cwd, mem, 900 + per_to + 120, logf)
     text = open(logf, errors="replace").read()
     tests = []
     for m in re.finditer(r"Concrete playback unit test for `([^`]+)`:\s*```\n(.*?)```", text, re.S):
@@ -423,7 +525,8 @@ def insert_tests(h, tests):
     open(p, "w").write(s)
 
 
-def run_playback(test_name, release, workdir):
+def run_playback(test_name, release, workdir, mode="O"):
+    build = Build(mode)
     env = dict(ENV)
     cmd = ["cargo", "kani", "playback", "-Z", "concrete-playback", "--lib"]
     if release:
@@ -432,7 +535,7 @@ def run_playback(test_name, release, workdir):
     cmd += ["--", "--nocapture", test_name]
     logf = os.path.join(workdir, f"replay-{'release' if release else 'dev'}-{test_name[-12:]}.log")
     with open(logf, "w") as lf:
-        p = subprocess.run(cmd, cwd=OVERLAY, env=env, stdout=lf, stderr=subprocess.STDOUT)
+        p = subprocess.run(cmd, cwd=build.cwd, env=env, stdout=lf, stderr=subprocess.STDOUT)
     text = open(logf, errors="replace").read()
     m = re.search(r"test result: (\w+)\. (\d+) passed; (\d+) failed", text)
     if not m:
@@ -515,24 +618,29 @@ def main():
     try:
         make_overlay(files)
         log(f"[{pid}] tier={tier} harnesses={len(hs)} overlay={OVERLAY}")
-        rc, out_json, logf = kani_verify(hs, tier, workdir)
-        logtext = open(logf, errors="replace").read()
-        data = None
-        if os.path.exists(out_json):
-            try:
-                data = json.load(open(out_json))
-            except Exception:
-                data = None
-        if data is None:
-            errs = [i for i, l in enumerate(logtext.splitlines()) if l.startswith("error")]
-            lines = logtext.splitlines()
-            for i in errs[:6]:
-                log("\n".join(lines[i:i + 12]))
-            if not errs:
-                log("\n".join(lines[-25:]))
-            raise Inconclusive(f"Kani produced no result file (exit {rc}); build error, time-out or memory cap -- see {logf}")
-        res_by = {r["harness_id"]: r for r in data.get("verification_results", {}).get("results", [])}
-        stats_by = {c["harness_id"]: c.get("cbmc_stats", {}) for c in data.get("cbmc", [])}
+        res_by, stats_by, logtext = {}, {}, ""
+        for mode in sorted({h.mode for h in hs}):
+            build = Build(mode)
+            build.prepare()
+            group = [h for h in hs if h.mode == mode]
+            rc, out_json, logf = kani_verify(group, tier, workdir, build)
+            logtext = open(logf, errors="replace").read()
+            data = None
+            if os.path.exists(out_json):
+                try:
+                    data = json.load(open(out_json))
+                except Exception:
+                    data = None
+            if data is None:
+                errs = [i for i, l in enumerate(logtext.splitlines()) if l.startswith("error")]
+                lines = logtext.splitlines()
+                for i in errs[:6]:
+                    log("\n".join(lines[i:i + 12]))
+                if not errs:
+                    log("\n".join(lines[-25:]))
+                raise Inconclusive(f"Kani produced no result file for build mode {mode} (exit {rc}); build error, time-out or memory cap -- see {logf}")
+            res_by.update({r["harness_id"]: r for r in data.get("verification_results", {}).get("results", [])})
+            stats_by.update({c["harness_id"]: c.get("cbmc_stats", {}) for c in data.get("cbmc", [])})
         known = load_known()
         for h in hs:
             r = classify(h, res_by.get(h.full), stats_by.get(h.full), logtext)
@@ -569,12 +677,12 @@ def main():
                 reproduced = False
                 outcomes = []
                 for t in fail_tests:
-                    o, lf = run_playback(t["name"], False, workdir)
+                    o, lf = run_playback(t["name"], False, workdir, h.mode)
                     outcomes.append({"test": t["name"], "check": t["desc"], "dev": o})
                     if o == "reproduced":
                         reproduced = True
                     if tier == "thorough":
-                        o2, lf2 = run_playback(t["name"], True, workdir)
+                        o2, lf2 = run_playback(t["name"], True, workdir, h.mode)
                         outcomes[-1]["release"] = o2
                         if o2 == "reproduced":
                             reproduced = True
@@ -680,10 +788,11 @@ def replay_saved(pid, files, allh, path):
     lockf = open(LOCK, "w")
     fcntl.flock(lockf, fcntl.LOCK_EX)
     make_overlay(files)
+    Build(h.mode).prepare()
     insert_tests(h, tests)
     bad = 0
     for t in tests:
-        o, lf = run_playback(t["name"], False, workdir)
+        o, lf = run_playback(t["name"], False, workdir, h.mode)
         log(f"replay {t['name']}: {o} (log {lf})")
         if o == "reproduced":
             bad += 1
